@@ -26,9 +26,9 @@ META = {
                     'py2neo Node / Relationship / Subgraph as libraries'],
     'shards': {'quick': 8, 'thorough': 16},
     'quotas': {
-        'quick': {'model-exports-checked': 500, 'db-nodes-checked': 2000, 'db-relationships-checked': 2000, 'imports-compared': 300,
-                  'attackgraph-exports-checked': 200, 'ag-relationships-checked': 2000, 'class:self-link': 50,
-                  'class:pair-linked-by-two-associations': 30, 'class:many-to-many': 10, 'class:dup-named-assoc-subtype-link': 10},
+        'quick': {'model-exports-checked': 200, 'db-nodes-checked': 800, 'db-relationships-checked': 1000, 'imports-compared': 200,
+                  'attackgraph-exports-checked': 90, 'ag-relationships-checked': 2000, 'class:self-link': 50,
+                  'class:pair-linked-by-two-associations': 30, 'class:many-to-many': 6, 'class:dup-named-assoc-subtype-link': 10},
         'thorough': {'model-exports-checked': 30000, 'imports-compared': 20000, 'attackgraph-exports-checked': 10000},
     },
 }
